@@ -646,6 +646,10 @@ type selectsMember interface {
 // property and, in a struct-mapped object, the default values of the sub-object that the property holds. Without either,
 // the property stays unset.
 func (o *ObjectSchema) valueIfUnset(propertyID string, property *PropertySchema) (any, bool) {
+	if property.Disabled {
+		// A disabled property takes no value, its own default value included: the input did not use it.
+		return nil, false
+	}
 	filled := map[string]any{}
 	if defaultValue, hasDefault := o.GetDefaults()[propertyID]; hasDefault {
 		filled[propertyID] = defaultValue
